@@ -204,7 +204,7 @@ func newAwaitRec(i, kind, fire int) *awaitRec {
 	if kind == 0 && fire > 1 {
 		a.fire = 1
 	}
-	if kind == 2 && fire == 3 {
+	if kind == 2 && (fire == 3 || fire == 5) {
 		a.fire = 2
 	}
 	return a
@@ -226,6 +226,11 @@ func (a *awaitRec) doFire(c *mon.Case) {
 	case 3:
 		a.fireStamp.Store(c.Rec("disturber", fmt.Sprint("close errCh of a", a.id), nil))
 		close(a.errCh)
+	case 5:
+		// the error channel fires with a nil error (a worker reporting a clean exit)
+		a.fireStamp.Store(c.Rec("disturber", fmt.Sprint("send nil on errCh of a", a.id), nil))
+		c.Count("nil_errors_sent_on_errch", 1)
+		a.errCh <- nil
 	}
 }
 
@@ -285,7 +290,7 @@ func promiseRaceCase(c *mon.Case) {
 	}
 	aw := make([]*awaitRec, nAwait)
 	for j := range aw {
-		a := newAwaitRec(j, r.IntN(3), r.IntN(5))
+		a := newAwaitRec(j, r.IntN(3), r.IntN(6))
 		aw[j] = a
 		c.Go(fmt.Sprint("a", j), func() {
 			<-start
@@ -299,7 +304,7 @@ func promiseRaceCase(c *mon.Case) {
 		<-start
 		for _, a := range aw {
 			runtime.Gosched()
-			if a.fire != 0 && a.fire < 4 {
+			if a.fire != 0 && a.fire != 4 {
 				a.doFire(c)
 			}
 		}
@@ -356,6 +361,8 @@ func promiseRaceCase(c *mon.Case) {
 		switch {
 		case a.err == context.Canceled && fired && (a.fire == 1 || a.fire == 3 || (a.fire == 2 && a.kind == 2)):
 		case a.err == errChTok && fired && a.fire == 2 && a.kind == 1:
+		case a.err == nil && fired && a.fire == 5 && a.kind == 1:
+			// the channel delivered nil: the await ends with what the channel delivered
 		default:
 			c.Violate("promise", "await-interrupted-without-source", "awaiter %d (kind %d, interruption %d fired at %d) returned (0, %v) at %d without that source having fired", a.id, a.kind, a.fire, fs, a.err, a.ret)
 		}
@@ -494,6 +501,9 @@ func containerCase(c *mon.Case) {
 	before := mon.Hits(verifhook.BcastEnter)
 	for j := range aw {
 		a := newAwaitRec(j, r.IntN(3), r.IntN(8))
+		if a.fire == 5 {
+			a.fire = 0 // (the nil-on-errCh interruption is driven against the plain Promise only)
+		}
 		if a.fire >= 4 {
 			a.fire = 0
 		}
